@@ -171,12 +171,12 @@ def generate(tier, seed, rx):
     out = []
     seen = set()
 
-    def add(bytes_, pos, chunk=0):
-        key = (tuple(bytes_), pos, chunk)
+    def add(bytes_, pos, chunk=0, sizes=()):
+        key = (tuple(bytes_), pos, chunk, tuple(sizes))
         if key in seen or not bytes_:
             return
         seen.add(key)
-        out.append({"bytes": bytes_, "pos": pos, "chunk": chunk})
+        out.append({"bytes": bytes_, "pos": pos, "chunk": chunk, "sizes": list(sizes)})
 
     for v in structural(rx):
         add(v, "poll")
@@ -187,6 +187,19 @@ def generate(tier, seed, rx):
     for name, p in valid_packets():
         add(p, "poll", 1)
         add(p, "poll", 3)
+    # coalesced packets: a two-byte packet (PINGRESP) in front of / between others, with the first reads
+    # cut inside it and the rest delivered as asked for -- a reader that asks for too much eats into
+    # the next packet
+    ping = [0xD0, 0x00]
+    vp = [p for _, p in valid_packets() if p[0] >> 4 not in (2, 14)]
+    for p in vp:
+        for sizes in ((1,), (1, 1), (2,), (1, 2), (3,), (1, 1, 1), (2, 1)):
+            add(ping + p, "poll", 0, sizes)
+    for p in rnd.sample(vp, min(len(vp), 12)):
+        q = rnd.choice(vp)
+        for sizes in ((1,), (len(p) + 1,), (len(p), 1), (1, len(p) - 1 if len(p) > 1 else 1, 1)):
+            add(p + ping + q, "poll", 0, sizes)
+            add(ping + ping + p, "poll", 0, sizes)
     for v in rnd.sample(structural(rx), 150):
         add(v, "conn")
     for v in mutations(rnd, 600 if tier == "quick" else 20000):
